@@ -119,3 +119,15 @@ package fallback
 //@   ensures [C12.fallback.handleif_delegates+C10.builder.handleif] nd == 1 && dr == c.BaseFailurePolicy && result_0 == asiface(c) && da == predicate
 //@   havoc
 //@   modifies *
+
+// policy-level success / failure listeners
+//@ func (*config).OnSuccess
+//@   builder
+//@   requires c != nil && c.BaseFailurePolicy != nil
+//@   ensures [C16.fallback.listener_registered_onsuccess+C10.builder.onsuccess] c.onSuccess == listener && c.onFailure == old(c.onFailure) && result == asiface(c)
+//@   modifies c.BaseFailurePolicy.onSuccess
+//@ func (*config).OnFailure
+//@   builder
+//@   requires c != nil && c.BaseFailurePolicy != nil
+//@   ensures [C16.fallback.listener_registered_onfailure+C10.builder.onfailure] c.onFailure == listener && c.onSuccess == old(c.onSuccess) && result == asiface(c)
+//@   modifies c.BaseFailurePolicy.onFailure
